@@ -1,11 +1,23 @@
-"""C17: shape facts and constants read from eventual.py, promise.py and observer.py.
+"""C17: eventual.py -> translated code; promise.py, observer.py -> shape facts and constants (coq/gen/EventualGen.v).
 
-Everything is a purpose-written AST query that fails closed (Untranslatable) when the
-surrounding code no longer has a form the model of coq/lib/Eventual.v / Promise.v can
-express.  A fact that *can* be expressed either way (append at tail or head, forward or
-reversed iteration, try/except present or not, `_break` assigns or compares, ...) is
-emitted as an enumerated value, so that an edit changes coq/gen/EventualGen.v and the
-proofs are re-checked against the changed model.
+eventual.py: every method of _SimpleCallQueue (append, _turn, flush) and the three module functions (eventually,
+fireEventually, flushEventualQueue) are translated STATEMENT BY STATEMENT (class QT below) into an action
+world -> world * trace * flow over the primitives of coq/lib/EventualBase.v: one primitive per statement form (stores to
+_events / _timer / _in_turn / _flushObservers, the tuple swap that takes the batch out, `for cb, args, kwargs in events`
+with its body, try/except with the handler's type, `while <test>` with its body, pop(0).callback(None), the snapshot
+loop over observers, d = defer.Deferred(), return values) and one combinator per control form (seq, cond, try_catch,
+exceptions and returns as control flow).  Tests are translated as Python truthiness of the fields with not/and/or.
+Only the ENVIRONMENT stays hand-written (coq/lib/Eventual.v): what invoking an entry does, what firing a Deferred does,
+the reactor.  The class must have exactly the four methods with the known signatures, __init__ must set up exactly the
+four fields, the module must bind the one queue object and define exactly the three functions; any statement outside
+the vocabulary raises Untranslatable (fail closed).  Code INSIDE the vocabulary is translated whatever it does
+(reordered statements, a different handler type, the snapshot loop, append calling cb): the model then follows the
+code and the tie theorem of coq/lib/EventualProofs.v decides whether it still is the reference machine.
+
+promise.py / observer.py: purpose-written AST queries that fail closed when the surrounding code no longer has a form
+the model of coq/lib/Promise.v can express.  A fact that *can* be expressed either way (`_break` assigns or compares,
+which states queue, drain order, ...) is emitted as an enumerated value, so that an edit changes gen/EventualGen.v and
+the proofs are re-checked against the changed model.
 
 FORMS ACCEPTED BY MEANING (each is equivalent to the form the queries were written for, for all inputs, with no
 assumption about the types of the values involved):
@@ -546,194 +558,187 @@ def states_tuple(test, consts, what):
     return out
 
 
+# ------------------------------------------------------------------------------------------------ eventual.py
+class QT:
+    """statement-by-statement translation of one function of eventual.py into an action of lib/EventualBase.v.
+    ctx: 'append' (parameters cb, args, kwargs = the entry x), 'turn', 'flush' (the Deferred d of the environment),
+    'eventually', 'fireEventually', 'flushEventualQueue'.  Anything that is not listed raises Untranslatable."""
+
+    def __init__(self, ctx, fname):
+        self.ctx = ctx
+        self.fname = fname
+        self.in_loop = False
+
+    def bail(self, node, why):
+        raise U("%s line %s: %s: %s" % (self.fname, getattr(node, "lineno", "?"), why, ast.unparse(node)[:120]))
+
+    # ---- expressions used as tests: Python truthiness of the queue's fields, not / and / or
+    def test(self, t):
+        if isinstance(t, ast.UnaryOp) and isinstance(t.op, ast.Not):
+            return "(fun w => negb (%s w))" % self.test(t.operand)
+        if isinstance(t, ast.BoolOp):
+            op = "andb" if isinstance(t.op, ast.And) else "orb"
+            parts = [self.test(v) for v in t.values]
+            acc = "(%s w)" % parts[-1]
+            for q in reversed(parts[:-1]):
+                acc = "(%s (%s w) %s)" % (op, q, acc)      # no side effects in these tests: short-circuit = andb/orb
+            return "(fun w => %s)" % acc
+        txt = ast.unparse(t)
+        fields = {"self._timer": "t_timer", "self._events": "t_events", "self._flushObservers": "t_observers",
+                  "self._in_turn": "t_in_turn"}
+        if txt in fields:
+            return fields[txt]
+        self.bail(t, "test outside the translatable subset")
+
+    def prim(self, st):
+        txt = ast.unparse(st)
+        c = self.ctx
+        # -- _SimpleCallQueue.append(self, cb, args, kwargs)
+        if c == "append":
+            if txt == "self._events.append((cb, args, kwargs))":
+                return "(p_events_append x)"
+            if txt == "self._events.insert(0, (cb, args, kwargs))":
+                return "(p_events_insert0 x)"
+            if txt == "self._timer = reactor.callLater(0, self._turn)":
+                return "p_arm_timer"
+            if txt == "cb(*args, **kwargs)":
+                return "(e_call_now E x)"
+        # -- _SimpleCallQueue._turn(self)
+        if c == "turn":
+            if txt == "self._timer = None":
+                return "p_timer_none"
+            if txt == S("events, self._events = self._events, []"):
+                return "p_swap_events"
+            if txt in ("self._in_turn = True", "self._in_turn = False"):
+                return "(p_set_in_turn %s)" % ("true" if txt.endswith("True") else "false")
+            if txt == "self._timer = reactor.callLater(0, self._turn)":
+                return "p_arm_timer"
+            if txt == "log.err()":
+                return "p_log_err"
+            if txt == "cb(*args, **kwargs)" and self.in_loop:
+                return "(e_call E x rest)"
+            if txt == "self._flushObservers.pop(0).callback(None)":
+                return "(p_pop0_callback (e_fire E))"
+            if txt == S("observers, self._flushObservers = self._flushObservers, []"):
+                return "p_swap_observers"
+            if txt == S("for o in observers:\n    o.callback(None)"):
+                return "(p_for_obs (e_fire E))"
+            if isinstance(st, ast.For):
+                if self.in_loop or st.orelse or ast.unparse(st.target) != "(cb, args, kwargs)":
+                    self.bail(st, "for loop")
+                d = iter_order(st, lambda n: isinstance(n, ast.Name) and n.id == "events", "_turn")
+                self.in_loop = True
+                body = self.block(st.body)
+                self.in_loop = False
+                return "(p_for_loc %s (fun x rest =>\n     %s))" % ({"Forward": "Fwd", "Backward": "Bwd"}[d], body)
+            if isinstance(st, ast.Try):
+                if st.orelse or st.finalbody or len(st.handlers) != 1 or st.handlers[0].name:
+                    self.bail(st, "try statement")
+                h = st.handlers[0]
+                if h.type is None or ast.unparse(h.type) == "BaseException":
+                    mode = "CatchAll"
+                elif ast.unparse(h.type) == "Exception":
+                    mode = "CatchException"
+                else:
+                    self.bail(st, "handler type")
+                return "(try_catch %s %s %s)" % (self.block(st.body), mode, self.block(h.body))
+            if isinstance(st, ast.While):
+                if st.orelse:
+                    self.bail(st, "while-else")
+                return "(p_while (e_fuel E) %s\n     %s)" % (self.test(st.test), self.block(st.body))
+        # -- _SimpleCallQueue.flush(self)
+        if c == "flush":
+            if txt == "d = defer.Deferred()":
+                return "p_new_deferred"
+            if txt == "self._flushObservers.append(d)":
+                return "(p_observers_append d)"
+        # -- module functions
+        if c == "eventually" and txt == "_theSimpleQueue.append(cb, args, kwargs)":
+            return "(m_append E x)"
+        if c == "fireEventually":
+            if txt == "d = defer.Deferred()":
+                return "p_new_deferred"
+            if txt == "eventually(d.callback, value)":
+                return "(m_eventually E x)"            # x: the entry (d.callback, (value,), {})
+        self.bail(st, "statement outside the translatable subset")
+
+    def ret(self, st):
+        v = None if st.value is None else ast.unparse(st.value)
+        c = self.ctx
+        if v is None or v == "None":
+            return "(ret_with RNone)"
+        if c == "flush" and v == "defer.succeed(None)":
+            return "(ret_with RFired)"
+        if c in ("flush", "fireEventually") and v == "d":
+            return "(ret_with RUnfired)"
+        if c == "flushEventualQueue" and v == "_theSimpleQueue.flush()":
+            return "(m_flush E d)"                     # returns whatever flush() returns
+        self.bail(st, "return value")
+
+    def block(self, stmts):
+        if not stmts:
+            return "ret"
+        st, rest = stmts[0], stmts[1:]
+        if isinstance(st, ast.Expr) and isinstance(st.value, ast.Constant) and isinstance(st.value.value, str):
+            return self.block(rest)                    # docstring
+        if isinstance(st, ast.Pass):
+            return self.block(rest)
+        if isinstance(st, ast.Return):
+            return self.ret(st)                        # whatever follows is dead
+        if isinstance(st, (ast.Break, ast.Continue)):
+            self.bail(st, "break/continue")
+        if isinstance(st, ast.If):
+            return "(seqa (cond %s %s %s)\n   %s)" % (self.test(st.test), self.block(st.body), self.block(st.orelse), self.block(rest))
+        return "(seqa %s\n   %s)" % (self.prim(st), self.block(rest))
+
+
 def gen_eventual(out):
     mod = P.load("eventual.py")
     accept_equivalent_functions(mod, "eventual.py", NOTES)
-    P.find_class(mod, "_SimpleCallQueue")
-    # ---- append
-    ap = P.find_def(mod, "_SimpleCallQueue.append")
-    # does append() itself run the callable?  The statement `cb(*args, **kwargs)` at the top level of append or inside
-    # the `if not self._timer:` arm is read as the shape fact ev_append_runs_callable = true (the model interprets it:
-    # the callable runs inside eventually()); the statements are then set aside and the rest of append is read as
-    # before.  Any other use of cb as a callee still fails closed below.
-    ap = copy.deepcopy(ap)
-    runs_cb = [0]
-
-    def drop_cb_calls(stmts):
-        keep = []
-        for st_ in stmts:
-            if isinstance(st_, ast.Expr) and ast.unparse(st_) == "cb(*args, **kwargs)":
-                runs_cb[0] += 1
-            else:
-                keep.append(st_)
-        return keep
-    ap.body = drop_cb_calls(ap.body)
-    for st_ in ap.body:
-        if isinstance(st_, ast.If) and ast.unparse(st_.test) == "not self._timer" and not st_.orelse:
-            st_.body = drop_cb_calls(st_.body) or st_.body
-    pos, call = append_position(ap, "_events", "_SimpleCallQueue.append")
-    if ast.unparse(call.args[-1]) != "(cb, args, kwargs)":
-        raise U("append stores %s" % ast.unparse(call.args[-1]))
+    cls = P.find_class(mod, "_SimpleCallQueue")
+    if any(not (isinstance(b, ast.Name) and b.id == "object") for b in cls.bases) or cls.decorator_list or cls.keywords:
+        raise U("_SimpleCallQueue has base classes / decorators")
+    meths = [n for n in cls.body if isinstance(n, ast.FunctionDef)]
+    other = [n for n in cls.body if not isinstance(n, ast.FunctionDef)
+             and not (isinstance(n, ast.Expr) and isinstance(n.value, ast.Constant))]
+    if sorted(m.name for m in meths) != ["__init__", "_turn", "append", "flush"] or other:
+        raise U("_SimpleCallQueue has members the model does not know: %r" % sorted([m.name for m in meths] + [ast.unparse(o)[:40] for o in other]))
+    sig = {"__init__": ["self"], "append": ["self", "cb", "args", "kwargs"], "_turn": ["self"], "flush": ["self"]}
+    for m in meths:
+        a = m.args
+        if m.decorator_list or a.vararg or a.kwarg or a.kwonlyargs or a.defaults or [x.arg for x in a.args] != sig[m.name]:
+            raise U("_SimpleCallQueue.%s has an unexpected signature" % m.name)
+    init = [ast.unparse(x) for x in stmts_no_doc(P.find_def(mod, "_SimpleCallQueue.__init__"))]
+    if sorted(init) != sorted(["self._events = []", "self._flushObservers = []", "self._timer = None", "self._in_turn = False"]):
+        raise U("_SimpleCallQueue.__init__ sets up a state the model does not have: %r" % (init,))
+    # the one queue object, and nothing else at module level that could touch it
+    tops = [ast.unparse(x) for x in mod.body if isinstance(x, ast.Assign)]
+    if tops != ["_theSimpleQueue = _SimpleCallQueue()"]:
+        raise U("module-level assignments of eventual.py: %r" % (tops,))
+    fsig = {"eventually": (["cb"], "args", "kwargs"), "fireEventually": (["value"], None, None), "flushEventualQueue": (["_ignored"], None, None)}
+    funs = {n.name: n for n in mod.body if isinstance(n, ast.FunctionDef)}
+    if sorted(funs) != sorted(fsig):
+        raise U("module-level functions of eventual.py: %r" % sorted(funs))
+    for nm, (pos, va, kw) in fsig.items():
+        a = funs[nm].args
+        if [x.arg for x in a.args] != pos or (a.vararg.arg if a.vararg else None) != va or (a.kwarg.arg if a.kwarg else None) != kw \
+                or a.kwonlyargs or funs[nm].decorator_list:
+            raise U("%s has an unexpected signature" % nm)
+    out.append("Require Import Verif.lib.EventualBase.")
     out.append("Inductive endpos := Tail | Head.")
     out.append("Inductive iterorder := Forward | Backward.")
-    out.append("Definition ev_append_pos : endpos := %s.   (* self._events.%s in append *)" % (pos, call.func.attr))
-    arms = [s for s in ap.body if isinstance(s, ast.If) and ast.unparse(s.test) == "not self._timer"
-            and len(s.body) == 1 and ast.unparse(s.body[0]) == "self._timer = reactor.callLater(0, self._turn)"]
-    plain = [s for s in ap.body if isinstance(s, ast.Assign) and ast.unparse(s) == "self._timer = reactor.callLater(0, self._turn)"]
-    if len(arms) == 1 and not plain and not arms[0].orelse:
-        out.append("Definition ev_append_arms_timer : bool := true.   (* if not self._timer: self._timer = reactor.callLater(0, self._turn) *)")
-    elif not arms and not plain and "callLater" not in ast.unparse(ap):
-        out.append("Definition ev_append_arms_timer : bool := false.  (* append no longer schedules _turn *)")
-    else:
-        raise U("append schedules _turn in an unexpected way")
-    # no other call of cb in append (the statements `cb(*args, **kwargs)` recognised above were set aside)
-    for x in ast.walk(ap):
-        if isinstance(x, ast.Call) and isinstance(x.func, ast.Name) and x.func.id == "cb":
-            raise U("append calls cb in a way the model does not cover")
-    if runs_cb[0] > 1:
-        raise U("append calls cb more than once")
-    if runs_cb[0]:
-        out.append("Definition ev_append_runs_callable : bool := true.   (* append() contains the call statement cb(..): the callable runs inside eventually() *)")
-    else:
-        out.append("Definition ev_append_runs_callable : bool := false.   (* append() only stores cb; nothing in it calls cb *)")
-    # ---- _turn
-    tn = P.find_def(mod, "_SimpleCallQueue._turn")
-    body = stmts_no_doc(tn)
-    idx_clear = [i for i, s in enumerate(body) if ast.unparse(s) == "self._timer = None"]
-    idx_swap = [i for i, s in enumerate(body) if ast.unparse(s) == S("events, self._events = self._events, []")]
-    idx_for = [i for i, s in enumerate(body) if isinstance(s, ast.For)]
-    idx_if = [i for i, s in enumerate(body) if isinstance(s, ast.If)]
-    if len(idx_swap) != 1 or len(idx_for) != 1:
-        raise U("_turn: expected one `events, self._events = self._events, []` and one top-level for loop (found %d, %d)"
-                % (len(idx_swap), len(idx_for)))
-    if not idx_swap[0] < idx_for[0]:
-        raise U("_turn: the batch is no longer swapped out before it is run")
-    out.append("Definition ev_swap_before_run : bool := true.   (* events, self._events = self._events, [] precedes the loop *)")
-    if len(idx_clear) == 1 and idx_clear[0] < idx_for[0]:
-        out.append("Definition ev_turn_clears_timer : bool := true.   (* self._timer = None before the batch runs *)")
-    elif not idx_clear and "_timer" not in ast.unparse(tn):
-        out.append("Definition ev_turn_clears_timer : bool := false.")
-    else:
-        raise U("_turn: self._timer is reset in an unexpected place")
-    loop = body[idx_for[0]]
-    if ast.unparse(loop.target) != "(cb, args, kwargs)" or loop.orelse:
-        raise U("_turn: loop target is %s" % ast.unparse(loop.target))
-    order = iter_order(loop, lambda n: isinstance(n, ast.Name) and n.id == "events", "_turn")
-    out.append("Definition ev_iter_order : iterorder := %s.   (* for cb, args, kwargs in %s *)" % (order, ast.unparse(loop.iter)))
-    lb = loop.body
-    callsrc = "cb(*args, **kwargs)"
-    out.append("Inductive catchmode := CatchAll | CatchException | CatchNone.")
-    if len(lb) == 1 and isinstance(lb[0], ast.Try):
-        t = lb[0]
-        if len(t.body) != 1 or ast.unparse(t.body[0]) != callsrc or t.orelse or t.finalbody or len(t.handlers) != 1:
-            raise U("_turn: unexpected try statement around the call")
-        h = t.handlers[0]
-        for x in walk_stmts(h.body):
-            if isinstance(x, (ast.Raise, ast.Return, ast.Break)):
-                raise U("_turn: the handler leaves the loop")
-        if h.type is None or ast.unparse(h.type) == "BaseException":
-            out.append("Definition ev_catch : catchmode := CatchAll.   (* try: cb(..) except: log.err() -- catches every BaseException *)")
-        elif ast.unparse(h.type) == "Exception":
-            out.append("Definition ev_catch : catchmode := CatchException.   (* except Exception: SystemExit, KeyboardInterrupt, GeneratorExit, ... pass through *)")
-        else:
-            raise U("_turn: the handler only catches %s" % ast.unparse(h.type))
-    elif len(lb) == 1 and ast.unparse(lb[0]) == callsrc:
-        out.append("Definition ev_catch : catchmode := CatchNone.  (* the call is no longer wrapped in try/except *)")
-    else:
-        raise U("_turn: unexpected loop body")
-    # observers: how the flush Deferreds are fired after the batch
-    out.append("Inductive firemode := FireWhileEmpty | FireAllIfEmpty | FireAllAlways.")
-    after = body[idx_for[0] + 1:]
-    fire = None
-    fi = None
-    for k, st_ in enumerate(after):
-        if "_flushObservers" in ast.unparse(st_):
-            fire = st_
-            fi = idx_for[0] + 1 + k
-            break
-    if fire is None:
-        raise U("_turn no longer fires the flush observers")
-    rest_after = body[fi:]
-    old_block = [S("observers, self._flushObservers = self._flushObservers, []"), S("for o in observers:\n    o.callback(None)")]
-    if isinstance(fire, ast.While):
-        if ast.unparse(fire) != S("while self._flushObservers and not self._events:\n    self._flushObservers.pop(0).callback(None)") \
-                or len(rest_after) != 1:
-            raise U("_turn: unexpected observer loop %r" % ast.unparse(fire))
-        out.append("Definition ev_fire_mode : firemode := FireWhileEmpty.   (* while self._flushObservers and not self._events: self._flushObservers.pop(0).callback(None) *)")
-    elif isinstance(fire, ast.If):
-        if ast.unparse(fire.test) != "not self._events" or fire.orelse or [ast.unparse(x) for x in fire.body] != old_block \
-                or len(rest_after) != 1:
-            raise U("_turn: observers are fired under %s" % ast.unparse(fire.test))
-        out.append("Definition ev_fire_mode : firemode := FireAllIfEmpty.   (* if not self._events: fire every observer *)")
-    elif [ast.unparse(x) for x in rest_after] == old_block:
-        out.append("Definition ev_fire_mode : firemode := FireAllAlways.")
-    else:
-        raise U("_turn: observers are fired by %r" % ([ast.unparse(x) for x in rest_after],))
-    # ---- batch-in-progress mark (self._in_turn = True before the loop, = False after it, before the observers)
-    idx_on = [i for i, s in enumerate(body) if ast.unparse(s) == "self._in_turn = True"]
-    idx_off = [i for i, s in enumerate(body) if ast.unparse(s) == "self._in_turn = False"]
-    init = P.find_def(mod, "_SimpleCallQueue.__init__")
-    init_src = [ast.unparse(s) for s in stmts_no_doc(init)]
-    for need in ("self._events = []", "self._flushObservers = []", "self._timer = None"):
-        if need not in init_src:
-            raise U("__init__ no longer contains " + need)
-    uses_mark = "_in_turn" in ast.unparse(P.find_class(mod, "_SimpleCallQueue"))
-    if len(idx_on) == 1 and len(idx_off) == 1 and idx_on[0] < idx_for[0] < idx_off[0] \
-            and idx_off[0] < fi and "self._in_turn = False" in init_src \
-            and ast.unparse(tn).count("_in_turn") == 2:
-        out.append("Definition ev_turn_marks_batch : bool := true.   (* self._in_turn = True / False around the batch loop *)")
-    elif not idx_on and not idx_off and "_in_turn" not in ast.unparse(tn):
-        out.append("Definition ev_turn_marks_batch : bool := false.")
-    else:
-        raise U("_turn: self._in_turn is set in an unexpected way")
-    # every top-level statement of _turn must be one of those recognised above (fail closed on anything else:
-    # a statement this generator does not understand may reorder or drop queued calls)
-    accounted = set(idx_clear + idx_swap + idx_for + idx_on + idx_off) | set(range(fi, len(body)))
-    extra = [ast.unparse(body[i]) for i in range(len(body)) if i not in accounted]
-    if extra:
-        raise U("_turn contains statements the model does not cover: %r" % (extra,))
-    if len(stmts_no_doc(ap)) != 2:
-        raise U("append contains statements the model does not cover: %r" % [ast.unparse(x) for x in stmts_no_doc(ap)])
-    cls_src = P.find_class(mod, "_SimpleCallQueue")
-    meths = [n.name for n in cls_src.body if isinstance(n, ast.FunctionDef)]
-    if sorted(meths) != ["__init__", "_turn", "append", "flush"]:
-        raise U("_SimpleCallQueue has methods %r" % (meths,))
-    known_init = {"self._events = []", "self._flushObservers = []", "self._timer = None", "self._in_turn = False"}
-    if not set(init_src) <= known_init:
-        raise U("__init__ sets up state the model does not have: %r" % sorted(set(init_src) - known_init))
-    # ---- flush
-    fl = P.find_def(mod, "_SimpleCallQueue.flush")
-    fb = stmts_no_doc(fl)
-    rest = fb
-    out.append("Inductive flushguard := FlushWhenIdle | FlushWhenNoEvents | FlushNeverSync.")
-    if fb and isinstance(fb[0], ast.If):
-        g = fb[0]
-        if g.orelse or [ast.unparse(s) for s in g.body] != ["return defer.succeed(None)"]:
-            raise U("flush: unexpected fast path body")
-        t = ast.unparse(g.test)
-        if t == S("not self._events and not self._in_turn"):
-            out.append("Definition ev_flush_guard : flushguard := FlushWhenIdle.   (* if not self._events and not self._in_turn: return defer.succeed(None) *)")
-        elif t == S("not self._events"):
-            out.append("Definition ev_flush_guard : flushguard := FlushWhenNoEvents.   (* if not self._events: return defer.succeed(None) *)")
-        else:
-            raise U("flush: unexpected fast path `%s`" % t)
-        rest = fb[1:]
-    else:
-        out.append("Definition ev_flush_guard : flushguard := FlushNeverSync.")
-    if uses_mark and "_in_turn" not in ast.unparse(tn):
-        raise U("self._in_turn is used but _turn does not maintain it")
-    if [ast.unparse(s) for s in rest] != ["d = defer.Deferred()", "self._flushObservers.append(d)", "return d"]:
-        raise U("flush: unexpected body %r" % [ast.unparse(s) for s in rest])
-    # ---- module functions
-    evf = P.find_def(mod, "eventually")
-    if [ast.unparse(s) for s in stmts_no_doc(evf)] != ["_theSimpleQueue.append(cb, args, kwargs)"]:
-        raise U("eventually() changed")
-    fe = P.find_def(mod, "fireEventually")
-    if [ast.unparse(s) for s in stmts_no_doc(fe)] != ["d = defer.Deferred()", "eventually(d.callback, value)", "return d"]:
-        raise U("fireEventually() changed")
-    fq = P.find_def(mod, "flushEventualQueue")
-    if [ast.unparse(s) for s in stmts_no_doc(fq)] != ["return _theSimpleQueue.flush()"]:
-        raise U("flushEventualQueue() changed")
+    hdr = "{C F U : Type} (E : env C F U)"
+    defs = [
+        ("m_append", "append", "_SimpleCallQueue.append", "(x : C)", P.find_def(mod, "_SimpleCallQueue.append")),
+        ("m__turn", "turn", "_SimpleCallQueue._turn", "", P.find_def(mod, "_SimpleCallQueue._turn")),
+        ("m_flush", "flush", "_SimpleCallQueue.flush", "(d : Z * F)", P.find_def(mod, "_SimpleCallQueue.flush")),
+        ("m_eventually", "eventually", "eventually", "(x : C)", funs["eventually"]),
+        ("m_fireEventually", "fireEventually", "fireEventually", "(x : C)", funs["fireEventually"]),
+        ("m_flushEventualQueue", "flushEventualQueue", "flushEventualQueue", "(d : Z * F)", funs["flushEventualQueue"]),
+    ]
+    for name, ctx, qual, params, fn in defs:
+        body = QT(ctx, qual).block(fn.body)
+        out.append("(* %s, line %d *)\nDefinition %s %s %s : act C F U :=\n  %s." % (qual, fn.lineno, name, hdr, params, body))
 
 
 def gen_promise(out):
